@@ -12,9 +12,10 @@ What is NOT proved here and why:
   resolves relative paths against the process working directory (finding F14, see `cwd_call_sites_pinned`); the
   independence from the working directory is therefore stated for the entry point (`abs` is applied to the root
   directory only) and checked on the real code by the `engineapi` stream;
-* `engine_equals_direct` holds for every cache for which `Parse` gets past its file stage; that the file stage succeeds
-  for an in-memory cache needs the root directory in its canonical absolute spelling (`canonical_root_accepted_partial`);
-  a relative spelling is rejected (`relative_root_rejected`: finding F15, the witness is `f15_witness`).
+* `engine_equals_direct` holds for every cache for which `Parse` gets past its file stage.  Since the fix of finding
+  F15 (`MergeFileCaches` compares root directories with `sameDirectory`) the file stage no longer depends on how the
+  root directory is spelled: `any_root_accepted`, `relative_root_accepted` (hypothesis: `filepath.Abs` is idempotent,
+  a property of the real function).
 -/
 import Arca.Proofs.EngineApiParse
 import Arca.Gen.EngineApi
@@ -152,7 +153,7 @@ theorem caller_copy_wins (env : Env P I D) (fuel : Nat) (files : FileCache) (nam
         · cases hf
         · rename_i m' hm
           cases hf
-          have := mergeFrom_getFile k _ _ _ hm
+          have := mergeFrom_getFile _ k _ _ _ hm
           rw [this]
           simp [lastWins, hk]
 
@@ -167,34 +168,68 @@ theorem engine_equals_direct_partial (env : Env P I D) (fuel : Nat) (files : Fil
 
 /-! ### working directory -/
 
-/-- The entry point consults the working directory (`filepath.Abs`) for the root directory of the cache only: two
-    working directories that resolve the root directory to the same path give the same result — in particular every
-    working directory when the root directory is absolute, as it always is for a cache made by
-    `NewFileCacheUsingContext`.  (`Prepare`/`Execute` are parameters here: the built-in `readFile` breaks this for the
-    real code, finding F14, see `cwd_call_sites_pinned`.) -/
+/-- The entry point consults the working directory (`filepath.Abs`) for the root directory of the caller's cache and for
+    its absolute spelling only (discovery: `filepath.Abs(rootDir)`; final merge: `sameDirectory(abs root, root)`): two
+    working directories that resolve these two paths alike give the same result — in particular every working
+    directory when the root directory is absolute, as it always is for a cache made by `NewFileCacheUsingContext`.
+    A relative root directory means "relative to the working directory", by intent.  (`Prepare`/`Execute` are parameters
+    here: the built-in `readFile` breaks this for the real code, finding F14, see `cwd_call_sites_pinned`.) -/
 theorem cwd_independent (env : Env P I D) (f g : String → String) (fuel : Nat) (files : FileCache) (name input : String)
-    (h : f files.rootDir = g files.rootDir) :
+    (h : f files.rootDir = g files.rootDir) (h' : f (f files.rootDir) = g (f files.rootDir)) :
     runWorkflow (withAbs env f) fuel files name input = runWorkflow (withAbs env g) fuel files name input := by
-  simp only [runWorkflow, parse, parseFiles, subworkflowCache_withAbs env f g files.rootDir h]
-  rfl
+  have hsub : ∀ wf, subworkflowCache (withAbs env f) fuel wf files.rootDir [] [] =
+      subworkflowCache (withAbs env g) fuel wf files.rootDir [] [] := fun wf =>
+    subworkflowCache_withAbs env f g files.rootDir h fuel wf [] [] (fun c hc => by cases hc)
+  have hmerge : ∀ wf sc, subworkflowCache (withAbs env g) fuel wf files.rootDir [] [] = .ok (some sc) →
+      mergeFileCaches f [some sc, some files] = mergeFileCaches g [some sc, some files] := by
+    intro wf sc hs
+    have hroot : sc.rootDir = g files.rootDir := subworkflowCache_root (withAbs env g) fuel wf files.rootDir [] [] sc hs
+    have hsame : sameDirectory f sc.rootDir files.rootDir = sameDirectory g sc.rootDir files.rootDir := by
+      unfold sameDirectory
+      rw [hroot, ← h, h', h]
+    simp only [mergeFileCaches, mergeFrom]
+    rw [mergeStep_pass (Or.inl rfl), mergeStep_pass (Or.inl rfl)]
+    simp only [mergeStep, hsame]
+  cases hg : getFile (defaultName name) files.files with
+  | none => simp [runWorkflow, parse, parseFiles, hg]
+  | some cf =>
+    have hyaml : (withAbs env f).fromYAML cf.content = (withAbs env g).fromYAML cf.content := rfl
+    cases hy : (withAbs env g).fromYAML cf.content with
+    | none => simp [runWorkflow, parse, parseFiles, hg, hyaml, hy]
+    | some wf =>
+      cases hs : subworkflowCache (withAbs env g) fuel wf files.rootDir [] [] with
+      | error e => simp [runWorkflow, parse, parseFiles, hg, hyaml, hy, hsub, hs]
+      | ok o =>
+        cases o with
+        | none =>
+          simp only [runWorkflow, parse, parseFiles, hg, hyaml, hy, hsub, hs]
+          rfl
+        | some sc =>
+          have hm := hmerge wf sc hs
+          simp only [runWorkflow, parse, parseFiles, hg, hyaml, hy, hsub, hs]
+          have hm' : mergeFileCaches (withAbs env f).abs [some sc, some files] =
+              mergeFileCaches (withAbs env g).abs [some sc, some files] := hm
+          rw [hm']
+          rfl
 
 /-! ### MergeFileCaches -/
 
 /-- Last writer wins: the merged entry of a key is the entry of the last cache in the argument list that has the key. -/
-theorem merge_last_wins (cs : List (Option FileCache)) (m : FileCache) (h : mergeFileCaches cs = .ok m) (k : String) :
+theorem merge_last_wins (abs : String → String) (cs : List (Option FileCache)) (m : FileCache)
+    (h : mergeFileCaches abs cs = .ok m) (k : String) :
     getFile k m.files = lastWins k cs := by
-  have := mergeFrom_getFile k cs _ m h
+  have := mergeFrom_getFile abs k cs _ m h
   rw [this]
   cases lastWins k cs <;> rfl
 
 /-- PARTIAL (the hypothesis `Agree` is needed, see `merge_order_dependent_without_agreement`): when the caches agree
     on the content of every key two of them share, the merged key -> content map does not depend on the order of the
     caches. -/
-theorem merge_order_independent_partial (cs cs' : List (Option FileCache)) (m m' : FileCache)
+theorem merge_order_independent_partial (abs : String → String) (cs cs' : List (Option FileCache)) (m m' : FileCache)
     (hp : cs.Perm cs') (ha : Agree cs)
-    (h : mergeFileCaches cs = .ok m) (h' : mergeFileCaches cs' = .ok m') (k : String) :
+    (h : mergeFileCaches abs cs = .ok m) (h' : mergeFileCaches abs cs' = .ok m') (k : String) :
     (getFile k m.files).map (·.content) = (getFile k m'.files).map (·.content) := by
-  rw [merge_last_wins cs m h, merge_last_wins cs' m' h']
+  rw [merge_last_wins abs cs m h, merge_last_wins abs cs' m' h']
   exact lastWins_content_perm hp ha
 
 /-- the counterexample pair: the in-memory and the on-disk copy of one sub-workflow -/
@@ -208,7 +243,7 @@ def cexDisk : FileCache :=
 
 /-- the content a merge gives to a key (`none`: the merge failed or the key is absent) -/
 def mergedContent (cs : List (Option FileCache)) (k : String) : Option String :=
-  match mergeFileCaches cs with
+  match mergeFileCaches id cs with
   | .ok m => (getFile k m.files).map (·.content)
   | .error _ => none
 
@@ -238,58 +273,121 @@ theorem loaded_caches_agree (env : Env P I D) (rootDir : String) (paths₁ paths
   rw [r₁] at r₂
   exact Option.some.inj r₂
 
-/-- Two caches with different non-empty root directories never merge, wherever they stand in the list. -/
-theorem merge_root_mismatch_rejected (cs : List (Option FileCache)) (c₁ c₂ : FileCache)
-    (h₁ : some c₁ ∈ cs) (h₂ : some c₂ ∈ cs) (n₁ : c₁.rootDir ≠ "") (n₂ : c₂.rootDir ≠ "")
-    (hne : c₁.rootDir ≠ c₂.rootDir) : mergeFileCaches cs = .error .rootMismatch := by
-  cases h : mergeFileCaches cs with
-  | error e => rw [mergeFrom_error cs _ e h]
+/-- Caches with non-empty root directories that denote different directories (different `filepath.Abs`) never merge,
+    wherever the two stand in the list. -/
+theorem merge_root_mismatch_rejected (abs : String → String) (cs : List (Option FileCache)) (c₁ c₂ : FileCache)
+    (hne : ∀ c, some c ∈ cs → c.rootDir ≠ "") (h₁ : some c₁ ∈ cs) (h₂ : some c₂ ∈ cs)
+    (hd : abs c₁.rootDir ≠ abs c₂.rootDir) : mergeFileCaches abs cs = .error .rootMismatch := by
+  cases h : mergeFileCaches abs cs with
+  | error e => rw [mergeFrom_error abs cs _ e h]
   | ok m =>
-    have := (mergeFrom_roots cs _ m h).1
-    exact absurd ((this c₁ h₁ n₁).trans (this c₂ h₂ n₂).symm) hne
+    have := (mergeFrom_roots abs cs _ m hne h).1
+    exact absurd ((this c₁ h₁).trans (this c₂ h₂).symm) hd
 
-/-- Caches that all carry the same root directory always merge, in every order, and the result carries that root. -/
-theorem merge_same_root_ok (r : String) (cs : List (Option FileCache)) (h : ∀ c, some c ∈ cs → c.rootDir = r) :
-    ∃ m, mergeFileCaches cs = .ok m ∧ (m.rootDir = "" ∨ m.rootDir = r) :=
-  mergeFrom_same_root r cs _ (Or.inl rfl) h
+/-- The hypothesis "non-empty" of `merge_root_mismatch_rejected` is needed: an empty root directory resets the
+    comparison, so two different directories merge when an empty root that `filepath.Abs` resolves to the first one
+    (the working directory) stands between them.  (Not reachable through `Parse`: discovery only merges caches with one
+    absolute root, and the caller's cache comes last.) -/
+theorem merge_empty_root_bridges_directories :
+    ∃ m, mergeFileCaches (fun s => if s = "" then "/ctx" else s)
+      [some { rootDir := "/ctx", files := [] }, some { rootDir := "", files := [] }, some { rootDir := "/other", files := [] }] = .ok m ∧
+      m.rootDir = "/other" :=
+  ⟨{ rootDir := "/other", files := [] }, by decide +kernel, rfl⟩
 
-/-- An empty root directory merges only when it comes first: success of a merge is order dependent (this is what
-    rejects `NewFileCache("", …)` in `Parse`, where the caller's cache comes last). -/
-theorem merge_empty_root_order_dependent :
-    (∃ m, mergeFileCaches [some { rootDir := "", files := [] }, some { rootDir := "/ctx", files := [] }] = .ok m) ∧
-    mergeFileCaches [some { rootDir := "/ctx", files := [] }, some { rootDir := "", files := [] }] = .error .rootMismatch :=
-  ⟨⟨_, rfl⟩, by decide +kernel⟩
+/-- Caches whose root directories all denote one directory (same `filepath.Abs`: the same string, a relative and the
+    absolute spelling, with or without trailing separator) always merge, in every order. -/
+theorem merge_same_directory_ok (abs : String → String) (a : String) (cs : List (Option FileCache))
+    (h : ∀ c, some c ∈ cs → abs c.rootDir = a) :
+    ∃ m, mergeFileCaches abs cs = .ok m ∧ (m.rootDir = "" ∨ abs m.rootDir = a) :=
+  mergeFrom_same_dir abs a cs _ (Or.inl rfl) h
 
-/-! ### root directory spelling (finding F15) -/
+/-- Caches that all carry the same root directory string always merge, in every order. -/
+theorem merge_same_root_ok (abs : String → String) (r : String) (cs : List (Option FileCache))
+    (h : ∀ c, some c ∈ cs → c.rootDir = r) :
+    ∃ m, mergeFileCaches abs cs = .ok m ∧ (m.rootDir = "" ∨ abs m.rootDir = abs r) :=
+  merge_same_directory_ok abs (abs r) cs (fun c hc => by rw [h c hc])
 
-/-- F15 in the model: when the workflow has foreach steps and the root directory of the caller's cache is not spelled
-    the way `filepath.Abs` spells it (relative, trailing slash, empty, …), `Parse` fails with the root-directory
-    mismatch although every file was found. -/
-theorem relative_root_rejected (env : Env P I D) (fuel : Nat) (files : FileCache) (name : String)
-    (cf : CtxFile) (wf : Wf) (sc : FileCache)
+/-- An empty root directory in first position always merges; in second position it merges exactly when
+    `filepath.Abs("")` — the working directory — is the directory of the first cache.  Success of a merge is therefore
+    still order dependent for empty roots, but no longer rejects `NewFileCache("", …)` used from inside the context
+    directory. -/
+theorem merge_empty_root_order_dependent (abs : String → String) (r : String) (fs fs' : Files) (hr : r ≠ "") :
+    (∃ m, mergeFileCaches abs [some { rootDir := "", files := fs }, some { rootDir := r, files := fs' }] = .ok m) ∧
+    ((∃ m, mergeFileCaches abs [some { rootDir := r, files := fs' }, some { rootDir := "", files := fs }] = .ok m) ↔
+      abs r = abs "") := by
+  constructor
+  · exact ⟨{ rootDir := r, files := putAll fs' (putAll fs []) }, by simp [mergeFileCaches, mergeFrom, mergeStep]⟩
+  · constructor
+    · rintro ⟨m, hm⟩
+      simp only [mergeFileCaches, mergeFrom] at hm
+      rw [mergeStep_pass (Or.inl rfl)] at hm
+      simp only at hm
+      cases hs : mergeStep abs { rootDir := r, files := putAll fs' [] } { rootDir := "", files := fs } with
+      | error e => rw [hs] at hm; cases hm
+      | ok acc =>
+        rcases (mergeStep_ok hs).1 with h0 | h1
+        · exact absurd h0 hr
+        · exact sameDirectory_abs h1
+    · intro ha
+      refine ⟨{ rootDir := "", files := putAll fs (putAll fs' []) }, ?_⟩
+      simp only [mergeFileCaches, mergeFrom]
+      rw [mergeStep_pass (Or.inl rfl)]
+      simp only
+      rw [mergeStep_pass (Or.inr ((sameDirectory_iff abs _ _).mpr (Or.inr ha)))]
+
+/-! ### root directory spelling (finding F15, fixed) -/
+
+/-- Whatever the spelling of the caller's root directory (relative, trailing separator, empty, absolute), the final merge
+    of `Parse` succeeds: the file stage succeeds whenever discovery does, the merged cache keeps the caller's root and
+    contains the discovered files overridden by the caller's own entries. -/
+theorem any_root_accepted (env : Env P I D) (fuel : Nat) (files : FileCache) (name : String)
+    (cf : CtxFile) (wf : Wf) (sc : FileCache) (hidem : AbsIdempotent env)
     (hc : getFile (defaultName name) files.files = some cf) (hy : env.fromYAML cf.content = some wf)
-    (hs : subworkflowCache env fuel wf files.rootDir [] [] = .ok (some sc))
-    (h0 : env.abs files.rootDir ≠ "") (hne : env.abs files.rootDir ≠ files.rootDir) :
-    parseFiles env fuel files name = .error .rootMismatch := by
+    (hs : subworkflowCache env fuel wf files.rootDir [] [] = .ok (some sc)) :
+    parseFiles env fuel files name =
+      .ok (wf, { rootDir := files.rootDir, files := putAll files.files (putAll sc.files []) }) := by
   have hroot := subworkflowCache_root env fuel wf files.rootDir [] [] sc hs
-  have hm : mergeFileCaches [some sc, some files] = .error .rootMismatch := by
-    simp [mergeFileCaches, mergeFrom, mergeStep, hroot, h0, hne]
+  have hm : mergeFileCaches env.abs [some sc, some files] =
+      .ok { rootDir := files.rootDir, files := putAll files.files (putAll sc.files []) } := by
+    simp only [mergeFileCaches, mergeFrom]
+    rw [mergeStep_pass (Or.inl rfl)]
+    simp only
+    rw [mergeStep_pass (Or.inr ((sameDirectory_iff env.abs _ _).mpr (Or.inr (by
+      show env.abs sc.rootDir = env.abs files.rootDir
+      rw [hroot, hidem]))))]
   simp [parseFiles, hc, hy, hs, hm]
 
-/-- PARTIAL (hypothesis: the root directory is given as `filepath.Abs` spells it, as the CLI does): then the final
-    merge of `Parse` cannot fail, the file stage succeeds whenever discovery does, and the merged cache has that root. -/
-theorem canonical_root_accepted_partial (env : Env P I D) (fuel : Nat) (files : FileCache) (name : String)
-    (cf : CtxFile) (wf : Wf) (sc : FileCache)
-    (hc : getFile (defaultName name) files.files = some cf) (hy : env.fromYAML cf.content = some wf)
-    (hs : subworkflowCache env fuel wf files.rootDir [] [] = .ok (some sc))
-    (habs : env.abs files.rootDir = files.rootDir) :
-    ∃ m, parseFiles env fuel files name = .ok (wf, m) ∧ m.rootDir = files.rootDir := by
-  have hroot := subworkflowCache_root env fuel wf files.rootDir [] [] sc hs
-  have hm : mergeFileCaches [some sc, some files] =
-      .ok { rootDir := files.rootDir, files := putAll files.files (putAll sc.files []) } := by
-    simp [mergeFileCaches, mergeFrom, mergeStep, hroot, habs]
-  exact ⟨{ rootDir := files.rootDir, files := putAll files.files (putAll sc.files []) },
-    by simp [parseFiles, hc, hy, hs, hm], rfl⟩
+/-- F15 fixed, in the model: a cache whose root directory is any spelling of a directory gives the same result as the
+    cache with the canonical absolute spelling of that directory. -/
+theorem relative_root_accepted (env : Env P I D) (fuel : Nat) (files : FileCache) (name input : String)
+    (hidem : AbsIdempotent env) :
+    runWorkflow env fuel files name input =
+      runWorkflow env fuel { rootDir := env.abs files.rootDir, files := files.files } name input := by
+  have hcongr := subworkflowCache_root_congr env files.rootDir (env.abs files.rootDir) (hidem files.rootDir).symm fuel
+  cases hg : getFile (defaultName name) files.files with
+  | none => simp [runWorkflow, parse, parseFiles, hg]
+  | some cf =>
+    cases hy : env.fromYAML cf.content with
+    | none => simp [runWorkflow, parse, parseFiles, hg, hy]
+    | some wf =>
+      cases hs : subworkflowCache env fuel wf files.rootDir [] [] with
+      | error e =>
+        have hs' := hs
+        rw [hcongr] at hs'
+        simp [runWorkflow, parse, parseFiles, hg, hy, hs, hs']
+      | ok o =>
+        cases o with
+        | none =>
+          have hs' := hs
+          rw [hcongr] at hs'
+          simp [runWorkflow, parse, parseFiles, hg, hy, hs, hs', FileCache.contents]
+        | some sc =>
+          have hs' := hs
+          rw [hcongr] at hs'
+          have p₁ := any_root_accepted env fuel files name cf wf sc hidem hg hy hs
+          have p₂ := any_root_accepted env fuel { rootDir := env.abs files.rootDir, files := files.files } name cf wf sc
+            hidem hg hy hs'
+          simp only [runWorkflow, parse, p₁, p₂, FileCache.contents]
 
 end
 
@@ -323,9 +421,16 @@ theorem inferred_error_flag_pinned :
     Arca.Gen.EngineApi.explicitSchemaKept = true := by decide +kernel
 
 /-- The only `filepath.Abs` / `os.Getwd` / `os.Chdir` sites of engine.go, loadfile.go and the built-in functions are
-    `NewFileCacheUsingContext(rootDir)` — modelled by `Env.abs`, applied to the root directory only — and the built-in
-    `readFile(filePath)`: finding F14. -/
+    `NewFileCacheUsingContext(rootDir)` and the two calls of `sameDirectory(dir1, dir2)` — both modelled by `Env.abs`,
+    applied to root directories only, so the working directory matters only through the meaning of a relative root
+    directory (`cwd_independent`) — and the built-in `readFile(filePath)`: finding F14. -/
 theorem cwd_call_sites_pinned : Arca.Gen.EngineApi.cwdCallSites = Arca.Expected.EngineApi.cwdCallSites := by decide +kernel
+
+/-- `sameDirectory` and the rejection condition of `MergeFileCaches` are the ones `sameDirectory` / `mergeStep` of the
+    model were written against -/
+theorem same_directory_pinned :
+    Arca.Gen.EngineApi.sameDirectoryBody = Arca.Expected.EngineApi.sameDirectoryBody ∧
+    Arca.Gen.EngineApi.mergeRejectCondition = Arca.Expected.EngineApi.mergeRejectCondition := by decide +kernel
 
 /-- exit-code constants and the condition -> constant table of the CLI are the ones of the model -/
 theorem exit_codes_pinned :
@@ -385,10 +490,18 @@ example : ((runWorkflow (demoEnv cliAbs) 5 (demoCache "/ctx") "" "error").output
 example : (match parseFiles (demoEnv cliAbs) 5 (demoCache "/ctx") "" with
     | .ok (wf, m) => wf == demoRoot && m.rootDir == "/ctx" && (getFile "sub.yaml" m.files).isSome
     | .error _ => false) = true := by decide +kernel
-/-- the F15 witness: the same directory given as "ctx" (filepath.Abs = "/ctx") is rejected -/
-theorem f15_witness :
-    (runWorkflow (demoEnv cliAbs) 5 (demoCache "ctx") "" "success").err = some .rootMismatch ∧
+-- the former F15 witness: the same directory given as "ctx" (filepath.Abs = "/ctx") is now accepted like "/ctx"
+example : ((runWorkflow (demoEnv cliAbs) 5 (demoCache "ctx") "" "success").outputID,
+    (runWorkflow (demoEnv cliAbs) 5 (demoCache "ctx") "" "success").err) = ("success", none) ∧
     (runWorkflow (demoEnv cliAbs) 5 (demoCache "/ctx") "" "success").err = none := by decide +kernel
+-- the hypothesis of any_root_accepted / relative_root_accepted is satisfiable
+example : AbsIdempotent (demoEnv cliAbs) := by
+  intro s
+  show cliAbs (cliAbs s) = cliAbs s
+  unfold cliAbs
+  by_cases h : s = "ctx" <;> simp [h]
+-- genuinely different directories are still rejected
+example : mergeFileCaches cliAbs [some (demoCache "/ctx"), some (demoCache "/elsewhere")] = .error .rootMismatch := by decide +kernel
 -- an output the workflow does not declare is the "bug:" error; an unreadable sub-workflow is a read error
 example : (runWorkflow (demoEnv cliAbs) 5 (demoCache "/ctx") "" "nope").err = some .noOutputSchema := by decide +kernel
 example : (runWorkflow (demoEnv cliAbs) 5 (demoCache "/elsewhere") "" "success").err = some .readError := by decide +kernel
